@@ -86,11 +86,14 @@ def float_strategy(t: str):
             st.sampled_from([0.0, -0.0, 1.0, -1.5, math.inf, -math.inf, math.nan, 1.401298464324817e-45, 3.4028234663852886e38, 0.10000000149011612]),
             st.floats(width=32),
             st.sampled_from([math.inf, -math.inf, math.nan, -0.0]),
+            # Python ints where a float is expected (m.ratio = 1): exactly representable ones
+            st.sampled_from([1, -1, 2, 7, 100, 2**24, -(2**24), 3]),
         )
     return st.one_of(
         st.sampled_from([0.0, -0.0, 1.0, -1.5, math.inf, -math.inf, math.nan, 5e-324, 1.7976931348623157e308, 0.1]),
         st.floats(),
         st.sampled_from([math.inf, -math.inf, math.nan, -0.0]),
+        st.sampled_from([1, -1, 2, 7, 100, 2**53, -(2**53), 3]),
     )
 
 
